@@ -186,7 +186,7 @@ def load_findings():
 
 
 def replay_path(prop, n, payload):
-    d = os.path.join(VERIF, "replays")
+    d = os.environ.get("VERIF_REPLAY_DIR") or os.path.join(VERIF, "replays")
     os.makedirs(d, exist_ok=True)
     p = os.path.join(d, "%s-%d.json" % (prop, n))
     with open(p, "w") as fh:
@@ -229,7 +229,7 @@ def verdict(prop, violations):
 
 
 def write_evidence(prop, tier, level, coverage, wall_s, violations=0, assumptions=()):
-    d = os.path.join(VERIF, "evidence")
+    d = os.environ.get("VERIF_EVIDENCE_DIR") or os.path.join(VERIF, "evidence")
     os.makedirs(d, exist_ok=True)
     ev = dict(property_id=prop, tier=tier, seed=seed(), level=level, coverage=coverage,
               assumptions=list(assumptions), wall_s=round(wall_s, 2), violations=violations)
